@@ -41,6 +41,8 @@ pub enum ProvSpec {
     Derive(Vec<(String, String)>),
     /// always this raw key
     Fixed(Vec<u8>),
+    /// like Derive, and the principal returned is a user named after the session token in the request
+    DeriveTokenPrincipal(Vec<(String, String)>),
     Fail(ErrSpec),
 }
 
@@ -51,6 +53,7 @@ impl ProvSpec {
     pub fn to_provider(&self) -> Provider {
         match self {
             ProvSpec::Derive(db) => sut::deriving_provider(db.clone()),
+            ProvSpec::DeriveTokenPrincipal(db) => sut::token_principal_provider(db.clone()),
             ProvSpec::Fixed(k) => {
                 let mut a = [0u8; 32];
                 a.copy_from_slice(&k[..32]);
@@ -62,7 +65,7 @@ impl ProvSpec {
     /// the reference's view of the same provider
     pub fn ref_answer(&self, ask: &Ask) -> Answer {
         match self {
-            ProvSpec::Derive(db) => match db.iter().find(|(ak, _)| *ak == ask.access_key) {
+            ProvSpec::Derive(db) | ProvSpec::DeriveTokenPrincipal(db) => match db.iter().find(|(ak, _)| *ak == ask.access_key) {
                 Some((_, secret)) => Answer::Key(
                     refmodel::hmac::chain(secret.as_bytes(), &ask.date8, ask.region.as_bytes(), ask.service.as_bytes())
                         .ksigning,
